@@ -791,6 +791,18 @@ func (a *Analyzer) onAppend(n *nodeState, r *ev.Rec) {
 		if len(nv) == 0 {
 			a.find("C08", "config-without-voter", "", r.Q, "%s: configuration entry %d has no voter: %s", n.key, e.Index, cfgString(r.Cfg))
 		}
+		if pred != nil && pred.Nodes != nil && isLeader && !a.isWire(n.key.nid) {
+			// C11: a node gains its vote only after this leader saw it catch up
+			pv := voterSet(pred)
+			for id := range nv {
+				if !pv[id] && pred.Has(id) || (!pv[id] && !pred.Has(id) && e.Index > 1) {
+					a.stat("voters-added")
+					if !n.rounds[id] {
+						a.find("C11", "voter-added-without-catch-up", "", r.Q, "leader %s appends configuration %s in which %d gains its vote (predecessor %s) without a completed catch-up round for it", n.key, cfgString(r.Cfg), id, cfgString(pred))
+					}
+				}
+			}
+		}
 		if pred != nil && pred.Nodes != nil {
 			if d := symDiff(voterSet(pred), nv); d > 1 {
 				a.find("C08", "config-changes-more-than-one-voter", "", r.Q, "%s: configuration %s follows %s: %d voters differ", n.key, cfgString(r.Cfg), cfgString(pred), d)
